@@ -23,6 +23,10 @@ type GOp struct {
 
 type GHist struct {
 	Hash  bool  `json:"hash"` // *HV vertices (payload identity observable) or plain ints
+	// HashKey (with Hash): *HVK vertices, whose hash code is itself a value
+	// that implements VertexHashable (code that hashes a hash code again ends
+	// up somewhere else)
+	HashKey bool `json:"hashKey,omitempty"`
 	MaxID int   `json:"maxid"`
 	Ops   []GOp `json:"ops"`
 }
@@ -31,6 +35,7 @@ type GHist struct {
 type gstore struct {
 	payload map[int]graph.Vertex // id -> representative object
 	edges   map[[2]int]int       // (u,v) in store orientation -> weight
+	hashKey bool                 // vertices are *HVK: their id is an HK value
 }
 
 type ghandle struct {
@@ -40,7 +45,7 @@ type ghandle struct {
 }
 
 func (s *gstore) clone() *gstore {
-	c := &gstore{payload: map[int]graph.Vertex{}, edges: map[[2]int]int{}}
+	c := &gstore{payload: map[int]graph.Vertex{}, edges: map[[2]int]int{}, hashKey: s.hashKey}
 	for k, v := range s.payload {
 		c.payload[k] = v
 	}
@@ -99,7 +104,14 @@ func checkHandle(v *engine.Verdict, hi int, h *ghandle, maxID int, deep bool) {
 	}
 	for id := 0; id < maxID; id++ {
 		p, present := st.payload[id]
-		got := h.g.Vertex(id)
+		var key interface{} = id
+		if p != nil {
+			// (the id of a vertex is its hash code, whatever that is)
+			key = graph.VertexID(p)
+		} else if st.hashKey {
+			key = engine.HK{ID: id}
+		}
+		got := h.g.Vertex(key)
 		if !present {
 			if got != nil {
 				v.Failf("handle %d: Vertex(%d) = %v for an absent vertex", hi, id, got)
@@ -199,9 +211,12 @@ func evalC19(c *engine.Case) engine.Verdict {
 			return id
 		}
 		serial++
+		if gh.HashKey {
+			return &engine.HVK{ID: id}
+		}
 		return &engine.HV{ID: id, Serial: serial}
 	}
-	h0 := &ghandle{g: &graph.Graph{}, st: &gstore{payload: map[int]graph.Vertex{}, edges: map[[2]int]int{}}}
+	h0 := &ghandle{g: &graph.Graph{}, st: &gstore{payload: map[int]graph.Vertex{}, edges: map[[2]int]int{}, hashKey: gh.Hash && gh.HashKey}}
 	handles := []*ghandle{h0}
 	rmWithEdges, mutAfterShare, overwrote, reAdded := false, false, false, false
 	missingEndpoint := false
@@ -247,6 +262,9 @@ func evalC19(c *engine.Case) engine.Verdict {
 				// identity half of the time
 				if gh.Hash && op.W%2 == 1 {
 					pu, pv = &engine.HV{ID: u, Serial: -1}, &engine.HV{ID: w2, Serial: -1}
+					if gh.HashKey {
+						pu, pv = &engine.HVK{ID: u}, &engine.HVK{ID: w2}
+					}
 				}
 				wt := 1
 				if op.Op == "edgew" {
@@ -298,7 +316,7 @@ func evalC19(c *engine.Case) engine.Verdict {
 				// a fresh zero-value graph, and (every other time) a reversed
 				// view of it taken before anything was added
 				if len(handles) < 5 {
-					zs := &gstore{payload: map[int]graph.Vertex{}, edges: map[[2]int]int{}}
+					zs := &gstore{payload: map[int]graph.Vertex{}, edges: map[[2]int]int{}, hashKey: gh.Hash && gh.HashKey}
 					zg := &graph.Graph{}
 					handles = append(handles, &ghandle{g: zg, st: zs})
 					if op.U%2 == 0 {
@@ -345,6 +363,9 @@ func evalC19(c *engine.Case) engine.Verdict {
 	if gh.Hash {
 		v.Class("hashcode-vertices")
 	}
+	if gh.Hash && gh.HashKey {
+		v.Class("hash-codes-that-are-hashable-themselves")
+	}
 	v.Class(fmt.Sprintf("handles=%d", len(handles)))
 	v.NonTrivial = rmWithEdges || mutAfterShare
 	return v
@@ -352,6 +373,7 @@ func evalC19(c *engine.Case) engine.Verdict {
 
 func genC19(g engine.G) *engine.Case {
 	gh := GHist{Hash: g.Pct(70), MaxID: g.Int(2, 7)}
+	gh.HashKey = gh.Hash && g.Pct(25)
 	n := g.Int(4, 40)
 	early := g.Pct(25)
 	ops := []string{"add", "add", "add", "addow", "edge", "edge", "edgew", "edgew", "edgew", "rmedge", "rm", "copy", "rev", "rev2", "zero"}
